@@ -5,3 +5,5 @@ import MJ.Props.C05
 #print axioms MJ.C05.same_pc_same_target
 #print axioms MJ.C05.bareBreak_rejected
 #print axioms MJ.C05.bareBreak_gets_stuck
+#print axioms MJ.C05.nested_restores
+#print axioms MJ.C05.earlyReturn_is_not_a_restore
